@@ -550,6 +550,8 @@ double Find_Root(std::function<double(double)> func, double xLeft, double xRight
 			double f3 = func(x3);
 			// New point
 			double x4 = x3 + (x3 - x1) * Sign(f1 - f2) * f3 / sqrt(f3 * f3 - f1 * f2);
+			// Rounding must not push the new point out of the bracket, the function may not be defined there.
+			x4 = std::min(std::max(x4, std::min(x1, x2)), std::max(x1, x2));
 			double f4 = func(x4);
 			if(f4 == 0.0)
 				return x4;
